@@ -197,7 +197,8 @@ func constructWithValue(sh *engine.Shape) (*constructed, any, error) {
 			c.skipped = err.Error()
 			return c, val, nil
 		}
-		info, err := router_info.NewRouterInfo(ri, time.UnixMilli(int64(sh.U[0])), addrs, goMap(sh.Opts), pk, id.Sig)
+		pub := time.UnixMilli(int64(sh.U[0])).Add(time.Duration((sh.Seed>>20)%1000000) * time.Nanosecond) // sub-millisecond part
+		info, err := router_info.NewRouterInfo(ri, pub, addrs, goMap(sh.Opts), pk, id.Sig)
 		if err != nil {
 			c.skipped = "NewRouterInfo: " + short(err)
 			return c, val, nil
@@ -296,7 +297,20 @@ func constructWithValue(sh *engine.Shape) (*constructed, any, error) {
 		}
 		var keys []lease_set2.EncryptionKey
 		for i := 0; i < max(1, sh.Size); i++ {
-			keys = append(keys, lease_set2.EncryptionKey{KeyType: 4, KeyLen: 32, KeyData: refmodel.Expand(sh.Seed+uint64(i), "c06-x", 32)})
+			// every key type with its usual length, and unknown types with an
+			// arbitrary (also zero) length: the constructor admits them all
+			kt, kl := uint16(4), 32
+			switch (sh.Seed >> (16 + 3*uint(i%8))) % 8 {
+			case 0:
+				kt, kl = 0, 256
+			case 1:
+				kt, kl = 5, 32
+			case 2:
+				kt, kl = 65280, int((sh.Seed>>24)%70)
+			case 3:
+				kt, kl = 255, 0
+			}
+			keys = append(keys, lease_set2.EncryptionKey{KeyType: kt, KeyLen: uint16(kl), KeyData: refmodel.Expand(sh.Seed+uint64(i), "c06-x", kl)})
 		}
 		flags := uint16(sh.U[2])
 		if off != nil {
@@ -305,9 +319,22 @@ func constructWithValue(sh *engine.Shape) (*constructed, any, error) {
 			flags &^= 1
 		}
 		var sk any = signKey.Ed25519Private()
-		if signKey.Ed25519Private() == nil {
+		if edp := signKey.Ed25519Private(); edp == nil {
 			if pk, err := signingPrivateKey(signKey); err == nil {
 				sk = pk
+			}
+		} else {
+			switch (sh.Seed >> 10) % 4 { // every accepted form of an Ed25519 key
+			case 1:
+				var a [64]byte
+				copy(a[:], edp)
+				sk = a
+			case 2:
+				sk = []byte(edp)
+			case 3:
+				if pk, err := signingPrivateKey(signKey); err == nil {
+					sk = pk
+				}
 			}
 		}
 		ls, err := lease_set2.NewLeaseSet2(d, uint32(sh.U[0]), uint16(sh.U[1]), flags, off, opts, keys, leases2(sh), sk)
